@@ -24,7 +24,7 @@ RULE = (
 )
 ASSUMPTIONS = [
     "cases where a clause alone is not boolean are discarded and counted",
-    "stub host functions (flow_logs, get_health_events, all_snapshots) read canned data out of the resource; trees using them run under the interpreter only (the compiled runner cannot call host functions, see C14)",
+    "stub host functions (flow_logs, get_health_events, all_snapshots) read canned data out of the resource",
     "Custodian semantics: list and 'and' = all, 'or' = any, 'not' = not all",
 ]
 
@@ -270,7 +270,7 @@ def check_tree(h: Harness, shape, fams, tag_):
         acc.violation(f"emitted-text does-not-parse {shape_str(shape)}", f"{text[:200]!r} from {json.dumps(filt)[:120]}: {type(ex).__name__}", {"filter": filt})
         return
     clause_texts = [h.clause_text(f, i) for f, i in leaves]
-    runners = "I" if uses_stub else "IC"
+    runners = "IC"  # stub host functions are callable from both runners since the C14 repair (4a21cf7)
     if QUICK and runners == "IC":
         QUICK[0] += 1
         runners = "IC" if QUICK[0] % 3 == 0 else ("I" if QUICK[0] % 3 == 1 else "C")
